@@ -126,11 +126,12 @@ def aoef_load_expect(ctx, spec, doc, exp, what):
         ctx.fail(f"{what}: rejected through AOEF loading although every invariant holds", spec, "rejected", "loaded", kind="false_reject_aoef")
 
 
-def saved_doc(obj):
+def saved_doc(obj, ctx, spec):
     from soundevent import io
 
     path = os.path.join(scratch(), "src04.json")
-    io.save(obj, path)
+    # a well-formed collection: writing it must succeed (an error here is the library's, not the harness's)
+    ctx.call(spec, f"io.save({type(obj).__name__}) of a well-formed collection", io.save, obj, path)
     with open(path) as fh:
         return json.load(fh)
 
@@ -146,7 +147,7 @@ def ce_case(draw):
     k = draw(st.integers(0, 3))
     m = draw(st.integers(0, 3))
     npair = draw(st.integers(0, min(k, m)))
-    pairing = draw(st.sampled_from(["same", "same", "same", "different", "different_equal_times"]))
+    pairing = draw(st.sampled_from(["same", "same", "same", "different", "different_equal_times", "same_uuid_other_content"]))
     muts = draw(st.lists(st.sampled_from(MUTS), min_size=0, max_size=2))
     return {"k": k, "m": m, "npair": npair, "pairing": pairing, "muts": muts, "salt": draw(st.integers(1, 2**32)), "pick": draw(st.integers(0, 10)),
             "hash_twins": draw(st.integers(0, 3)) == 0}
@@ -155,7 +156,7 @@ def ce_case(draw):
 def check_ce(spec, ctx):
     from soundevent import data
 
-    if spec["pairing"] not in ("same", "different", "different_equal_times") or any(m not in MUTS for m in spec["muts"]) or spec["npair"] > min(spec["k"], spec["m"]):
+    if spec["pairing"] not in ("same", "different", "different_equal_times", "same_uuid_other_content") or any(m not in MUTS for m in spec["muts"]) or spec["npair"] > min(spec["k"], spec["m"]):
         raise ValueError("malformed spec")
     ids = Ids(spec["salt"])
     rec, clips = base_objects(ids, 2, equal_times=spec["pairing"] == "different_equal_times")
@@ -175,7 +176,13 @@ def check_ce(spec, ctx):
     foreign_ann = data.SoundEventAnnotation(uuid=ids(), sound_event=ses[-1], created_on="2020-01-01T00:00:00")
     foreign_pred = data.SoundEventPrediction(uuid=ids(), sound_event=ses[-2], score=0.25)
     ca = data.ClipAnnotation(uuid=ids(), clip=clips[0], sound_events=anns, created_on="2020-01-01T00:00:00")
-    cp = data.ClipPrediction(uuid=ids(), clip=clips[0] if spec["pairing"] == "same" else clips[1], sound_events=preds)
+    same_clip = spec["pairing"] in ("same", "same_uuid_other_content")
+    pred_clip = clips[0] if same_clip else clips[1]
+    if spec["pairing"] == "same_uuid_other_content":
+        # the SAME clip (same identifier) as another tool holds it: a separate object that carries a feature the annotation side's copy
+        # lacks.  "Refer to the same clip" is a statement about identifiers.
+        pred_clip = data.Clip(uuid=clips[0].uuid, recording=rec, start_time=clips[0].start_time, end_time=clips[0].end_time, features=[data.Feature(term=data.term_from_key("snr"), value=3.0)])
+    cp = data.ClipPrediction(uuid=ids(), clip=pred_clip, sound_events=preds)
 
     # canonical cover as (source index | None | 'F', target index | None | 'F')
     arr = [[j, j] for j in range(spec["npair"])]
@@ -219,7 +226,7 @@ def check_ce(spec, ctx):
     srcs = [a[0] for a in arr if a[0] is not None]
     tgts = [a[1] for a in arr if a[1] is not None]
     exp = (
-        spec["pairing"] == "same"
+        same_clip
         and all(not (a[0] is None and a[1] is None) for a in arr)
         and sorted(map(str, srcs)) == sorted(map(str, range(spec["m"])))
         and sorted(map(str, tgts)) == sorted(map(str, range(spec["k"])))
@@ -295,7 +302,7 @@ def check_ce(spec, ctx):
     cp2 = data.ClipPrediction(uuid=ids(), clip=clips[1], sound_events=[foreign_pred])
     ce2 = data.ClipEvaluation(uuid=ids(), annotations=ca2, predictions=cp2, matches=[data.Match(uuid=ids(), source=foreign_pred, target=foreign_ann, affinity=0.5)])
     ev = data.Evaluation(uuid=ids(), evaluation_task="t", clip_evaluations=[ce_ok, ce2], created_on="2020-01-01T00:00:00")
-    doc = saved_doc(ev)
+    doc = saved_doc(ev, ctx, spec)
     d = doc["data"]
     new_matches = []
     listed = []
@@ -318,7 +325,7 @@ def check_ce(spec, ctx):
             e["matches"] = [u for _, u in listed]
             if not listed and spec["pick"] % 2:
                 del e["matches"]  # key left out of the document instead of an empty list
-    if spec["pairing"] != "same":
+    if not same_clip:
         for c in d["clip_predictions"]:
             if c["uuid"] == str(cp.uuid):
                 c["clip"] = str(clips[1].uuid)
@@ -359,7 +366,7 @@ def check_match(spec, ctx):
     cp = data.ClipPrediction(uuid=ids(), clip=clips[0], sound_events=[pred])
     good = data.Match(uuid=ids(), source=pred, target=ann, affinity=0.5)
     ev = data.Evaluation(uuid=ids(), evaluation_task="t", created_on="2020-01-01T00:00:00", clip_evaluations=[data.ClipEvaluation(uuid=ids(), annotations=ca, predictions=cp, matches=[good])])
-    doc = saved_doc(ev)
+    doc = saved_doc(ev, ctx, spec)
     mo = doc["data"]["matches"][0]
     extra = []
     if not spec["source"]:
@@ -414,7 +421,7 @@ def check_project(spec, ctx):
     # AOEF: valid project where every annotated clip has a task, then delete the tasks that the arrangement lacks
     full_tasks = [data.AnnotationTask(uuid=ids(), clip=clip, created_on="2020-01-01T00:00:00") for clip in clips]
     proj = data.AnnotationProject(uuid=ids(), name="p", tasks=full_tasks, clip_annotations=anns, created_on="2020-01-01T00:00:00")
-    doc = saved_doc(proj)
+    doc = saved_doc(proj, ctx, spec)
     drop = {str(clip.uuid) for clip, (has_task, _) in zip(clips, spec["clips"]) if not has_task}
     doc["data"]["tasks"] = [t for t in doc["data"].get("tasks") or [] if t["clip"] not in drop]
     aoef_load_expect(ctx, spec, doc, exp, f"AnnotationProject membership {spec['clips']} in an AOEF document")
@@ -489,7 +496,7 @@ def check_clip(spec, ctx):
             if ok != exp:
                 ctx.fail(f"Clip(start_time={rs!r}, end_time={re_!r}) given as {rname} via {path}: {'accepted' if ok else 'rejected'}, the same numbers as floats are {'accepted' if exp else 'rejected'}", spec, ok, exp, kind="false_accept" if ok else "false_reject")
     good = data.Clip(uuid=ids(), recording=rec, start_time=0.0, end_time=1.0)
-    doc = saved_doc(data.AnnotationSet(uuid=ids(), created_on="2020-01-01T00:00:00", clip_annotations=[data.ClipAnnotation(uuid=ids(), clip=good, created_on="2020-01-01T00:00:00")]))
+    doc = saved_doc(data.AnnotationSet(uuid=ids(), created_on="2020-01-01T00:00:00", clip_annotations=[data.ClipAnnotation(uuid=ids(), clip=good, created_on="2020-01-01T00:00:00")]), ctx, spec)
     doc["data"]["clips"][0]["start_time"] = s
     doc["data"]["clips"][0]["end_time"] = e
     aoef_load_expect(ctx, spec, doc, exp, f"Clip start={s!r} end={e!r} in an AOEF document")
@@ -565,7 +572,7 @@ def check_score(spec, ctx):
     elif container == "model_run":
         ev = data.ModelRun(uuid=ids(), name="m", clip_predictions=[cp], created_on="2020-01-01T00:00:00")
     ctx.label(f"container={container}")
-    doc = saved_doc(ev)
+    doc = saved_doc(ev, ctx, spec)
     d = doc["data"]
     jv = v
     if f in ("PredictedTag.score", "SoundEventPrediction.tags.score"):
